@@ -22,7 +22,7 @@ ASSUMPTIONS = [
     "volume / centre compared with rtol 1e-12 (grouping: 1e-11), compiled path within 4 ulp",
 ]
 PI = math.pi
-RADII = [0.0, 1e-3, 0.5, 1.0, 2.5, 1e3]
+RADII = [0.0, 1e-7, 3e-7, 1e-3, 0.5, 1.0, 2.5, 1e3]  # incl. two unequal tiny radii: total volumes far below machine epsilon
 RADII_THOROUGH = RADII + [1e-9, 1e-6, 30.0, 1e6]  # absolute scales far from 1 (absolute tolerances must not matter)
 WIDTHS = [None, 0.0, 0.3, 1.2]
 POS1 = [-2.0, 0.0, 0.7, 3.5]
